@@ -145,6 +145,46 @@ def rule_sites(ctx, rule_id):
                 total += 1
                 r.inst("%s: counter/offset addition (%s)" % (f.path, t["optys"][0]))
                 r.unproven.append("%s: addition on %s (bounded by input length)" % (f.path, t["optys"][0]))
+    # two-sided range indexing `x[a..b]` of a value container (none today: the
+    # repository's idiom is the total lookup `x.get(a..b)`): it panics when
+    # a > b as well as when b > len, so it needs a comparison of the two
+    # bounds on the way to it
+    nrng = 0
+    for f in prog.hand_fns():
+        if f.from_expansion:
+            continue
+        for c in f.calls():
+            d = c.declared or ""
+            if d not in ("std::ops::Index::index", "std::ops::IndexMut::index_mut") or len(c.argtys) < 2:
+                continue
+            if not c.argtys[1].startswith("std::ops::Range<"):
+                continue
+            a0 = c.argtys[0].replace("&mut ", "").replace("&", "")
+            if not (a0.startswith(("std::vec::Vec<eval::value::SourcedValue", "std::vec::Vec<u8", "[eval::value::SourcedValue", "[u8"))):
+                continue
+            nrng += 1
+            cp = f.canon_op(c.args[1])
+            ok_order = False
+            desc = "%s: %s[a..b]" % (f.path, a0.split("<")[0].split("::")[-1])
+            if cp[0][0] == "agg":
+                st = f.stmts(cp[0][1])[cp[0][2]]
+                aops = st[2][2]
+                if len(aops) == 2:
+                    s_t, e_t = guards.var_of(f, aops[0]), guards.var_of(f, aops[1])
+                    for (op, a, b) in dominating_relations(f, c.bb):
+                        if {repr(a), repr(b)} == {repr(s_t), repr(e_t)} and op in ("Le", "Lt", "Ge", "Gt"):
+                            ok_order = True
+            if ok_order:
+                r.inst(desc + " — bounds compared on the way")
+                r.ok()
+            else:
+                r.inst(desc + " — no comparison of the two bounds")
+                r.fail("%s | range index without start<=end guard" % f.path,
+                       "%s slices a value container with `[a..b]`, which "
+                       "panics when a > b, and no comparison of the two "
+                       "bounds guards it (the total lookup `get(a..b)` "
+                       "answers None instead)" % f.path, where=c.loc)
+    r.notes.append("two-sided range index sites on value containers: %d" % nrng)
     # index-taking container APIs that panic out of range (none today): a
     # call with no comparison at all on the way to it is a violation, a
     # guarded one is listed for review
